@@ -477,10 +477,3 @@ Proof. now rewrite !tars_res. Qed.
 Theorem tars_decode_consumed st rp v f n : res (tars_decode st rp v) = Ok (f, n) -> 0 < n /\ n <= vlen v.
 Proof. rewrite tars_res. apply tars_pure_ok. Qed.
 
-(* these framers never answer with reply-and-return *)
-Lemma dubbo_never_reply hess : never_reply (dubbo_parse_nz hess).
-Proof. intros b f n. unfold dubbo_parse_nz. destruct (dubbo_pure_nz hess b) as [[g m]| | | |]; discriminate. Qed.
-Lemma thrift_never_reply tp : never_reply (thrift_parse tp).
-Proof. intros b f n. rewrite thrift_parse_eq. destruct (thrift_pure tp b) as [[g m]| | | |]; discriminate. Qed.
-Lemma tars_never_reply st rp : never_reply (tars_parse st rp).
-Proof. intros b f n. rewrite tars_parse_eq. destruct (tars_pure st rp b) as [[g m]| | | |]; discriminate. Qed.
